@@ -155,6 +155,63 @@ def explore(ctx, depth):
                 ctx.fail({**inp, 'clause': 'exported verbatim in place'}, 'the malformed cells are not exported verbatim in place', impl=e1['ok'], expected=exp,
                          core=not has_sep, finding='F10-separators-stripped' if has_sep else None,
                          tie_ok=('exports' in mr and mr['exports'][0] == e1))
+    # ---- the malformed cells in every encoding and in range exports (correspondence with the model, and the cell verbatim in its line):
+    # an error token has no parts, so every encoding prints its text
+    from kernpy.core.tokenizers import Encoding
+    sub = [(dc, m) for dc, m in zip(dam_cases, metas) if dc.doc is not None][:12 if depth == 'quick' else 150]
+    encs = ['ekern', 'bkern', 'bekern', 'akern', 'aekern']
+    exps = [[{'cats': docrun.ALLC, 'enc': e} for e in encs] + [{'cats': docrun.ALLC, 'enc': 'kern', 'from': 1, 'to': None}, {'cats': docrun.ALLC, 'enc': 'bekern', 'from': 1, 'to': 1}]
+            for _ in sub]
+    mresp2 = docrun.model_exports(ctx, [dc for dc, _ in sub], exps)
+    for (dc, (case, dmg)), mr in zip(sub, mresp2):
+        if 'exports' not in mr:
+            continue
+        for ex, model in zip(exps[0], mr['exports']):
+            got = docrun.dumps_public(dc, {'enc': ex['enc'], 'from': ex.get('from'), 'to': ex.get('to')})
+            inp = {'text': dc.text, 'encoding': ex['enc'], 'from_measure': ex.get('from'), 'to_measure': ex.get('to'), 'damaged': sorted(dmg.values())}
+            ctx.check({**inp, 'clause': 'malformed cells in every encoding (correspondence)'}, got, model, None, nontrivial=True,
+                      what='export of a document with malformed cells differs from the model')
+            if 'ok' in got and ex.get('from') is None and not any('@' in t or '\u00b7' in t for t in dmg.values()):
+                cells = [c for ln in got['ok'].split('\n') for c in ln.split('\t')]
+                for t in dmg.values():
+                    if t not in cells:
+                        ctx.fail({**inp, 'clause': 'malformed cell verbatim in every encoding', 'cell': t},
+                                 'a malformed cell is not printed verbatim under this encoding', impl=got['ok'], expected=t)
+    # ---- a score without opening barline whose first line of music is malformed in every spine: the malformed cell still opens measure 1
+    # (the measure index, the range export from measure 1 and the full export against the model)
+    # malformed cells with irregular white space (two blanks, outer blanks, no-break / thin spaces): verbatim in every encoding
+    for bad in ('4zz  4e', ' 4zz', '4zz  ', '4zz\u00a04e', '4zz\u20094e', '8..  L'):
+        text_ = '**kern\t**kern\n*clefG2\t*clefF4\n4c\t' + bad + '\n' + bad + '\t4d\n*-\t*-\n'
+        dws, errs_ws = kp.loads(text_)
+        if len(errs_ws) != 2:
+            continue       # the parser accepts this one: not a malformed cell
+        for e in ('kern', 'ekern', 'bkern', 'bekern', 'akern', 'aekern'):
+            got = call(lambda: kp.dumps(dws, encoding=Encoding(e)))
+            ctx.seen({'text': text_, 'encoding': e, 'clause': 'malformed cell with irregular white space'}, True)
+            cells = [c for ln in got.get('ok', '').split('\n') for c in ln.split('\t')]
+            if cells.count(bad) != 2:
+                ctx.fail({'text': text_, 'encoding': e, 'cell': bad, 'clause': 'malformed cell with irregular white space verbatim in every encoding'},
+                         'a malformed cell with irregular white space is not printed verbatim under this encoding', impl=got, expected=bad)
+    wit = []
+    for hs, first in ((['**kern'], ['4zz#']), (['**kern', '**kern'], ['#c4', '4c@x']), (['**kern'], ['r4']), (['**kern', '**kern'], ['4zz#', '8..'])):
+        rows_ = [hs, ['*clefG2'] * len(hs), ['*M4/4'] * len(hs), first, ['4c'] * len(hs), ['=2'] * len(hs), ['4d'] * len(hs), ['*-'] * len(hs)]
+        wit.append(docrun.Case({'text': ''.join('\t'.join(r) + '\n' for r in rows_), 'headers': hs, 'rows': [], 'kind': 'first line malformed'}))
+    for c in wit:
+        c.import_impl()
+    wexp = [{'cats': docrun.ALLC, 'enc': 'kern'}, {'cats': docrun.ALLC, 'enc': 'kern', 'from': 1, 'to': 1}, {'cats': docrun.ALLC, 'enc': 'kern', 'from': 1, 'to': None},
+            {'cats': docrun.ALLC, 'enc': 'kern', 'from': 2, 'to': 2}]
+    mresp3 = docrun.model_exports(ctx, wit, [wexp for _ in wit], tree=True)
+    for c, mr in zip(wit, mresp3):
+        if not docrun.tie_import(ctx, c, mr, tree=True):
+            continue
+        ctx.seen({'text': c.text, 'clause': 'first line of music malformed'}, True)
+        if len(c.doc.measure_start_tree_stages) != 2 or c.doc.measure_start_tree_stages[0] != 4:
+            ctx.fail({'text': c.text, 'clause': 'first line of music malformed: measure index'}, 'a malformed cell in the first line of music does not open measure 1',
+                     impl=list(c.doc.measure_start_tree_stages), expected=[4, 6])
+        for ex, model in zip(wexp, mr['exports']):
+            got = docrun.dumps_public(c, {'from': ex.get('from'), 'to': ex.get('to')})
+            ctx.check({'text': c.text, 'from_measure': ex.get('from'), 'to_measure': ex.get('to'), 'clause': 'first line of music malformed: exports'}, got, model, None,
+                      nontrivial=True, what='export of a score whose first line of music is malformed differs from the model')
     # ---- single-importer histories
     alphabet = ['4c', '8.dd#L', '=1', '*clefG2', '4c 4e', '.', '*', '2r'] + rejected[:4]
     maxlen = 3 if depth == 'quick' else 5
